@@ -365,3 +365,98 @@ Proof.
   - eapply yP_skip; [rewrite (next_stage_live s p ss q l _ Ed H); reflexivity|apply IH].
   - eapply stage_item_yields; eassumption.
 Qed.
+
+(* ------------------------------------------------------------------ sfun from the initial state is spec_stage *)
+
+Lemma top_from_spec : forall n st items c,
+  top_from n c items st =
+  if (c <=? n) && (n - c <=? Z.of_nat (length items)) then (firstn (Z.to_nat (n - c)) items, Closed) else (items, st).
+Proof.
+  intros n st. induction items as [|x r IH]; intros c.
+  - cbn [top_from length firstn]. destruct (Z.eqb_spec c n) as [E|E].
+    + subst. rewrite Z.leb_refl. replace (n - n) with 0 by lia. cbn. reflexivity.
+    + destruct (Z.leb_spec c n); destruct (Z.leb_spec (n - c) (Z.of_nat 0)); cbn [andb];
+        try reflexivity. lia.
+  - cbn [top_from]. destruct (Z.eqb_spec c n) as [E|E].
+    + subst. rewrite Z.leb_refl. replace (n - n) with 0 by lia. cbn. reflexivity.
+    + rewrite IH. cbn [length].
+      destruct (Z.leb_spec c n); destruct (Z.leb_spec (c + 1) n); try lia; cbn [andb].
+      * destruct (Z.leb_spec (n - (c + 1)) (Z.of_nat (length r)));
+          destruct (Z.leb_spec (n - c) (Z.of_nat (S (length r)))); try lia.
+        -- replace (Z.to_nat (n - c)) with (S (Z.to_nat (n - (c + 1)))) by lia. reflexivity.
+        -- reflexivity.
+      * reflexivity.
+Qed.
+
+Lemma sfun_init : forall s items st, sfun s sst0 items st = spec_stage s (items, st).
+Proof.
+  intros s items st. destruct s; cbn [sfun sst0 lastv lastr cnt spec_stage]; try reflexivity.
+  - rewrite Z.sub_0_r. reflexivity.
+  - rewrite top_from_spec. rewrite Z.sub_0_r. rewrite Z.geb_leb. reflexivity.
+Qed.
+
+(* ------------------------------------------------------------------ pipelines without cross / merge *)
+
+Fixpoint no_cm (p : pipe) : Prop :=
+  match p with
+  | PNumbers _ | PList _ => True
+  | PStage _ p' => no_cm p'
+  | PApp a b => no_cm a /\ no_cm b
+  | PThrough _ p' => no_cm p'
+  | PCross _ _ _ _ | PMerge _ _ _ _ => False
+  end.
+
+(* every eager partial list of the specification is an observation of the lazy machine *)
+Lemma pipe_yields : forall p, no_cm p -> forall N, yieldsP p (init p) (spec_pipe N p).
+Proof.
+  induction p as [n|l|s p IH|p1 IH1 p2 IH2|ci g p1 IH1 p2 IH2|ci less p1 IH1 p2 IH2|cx p IH]; intros Hn N;
+    cbn [no_cm] in Hn; try contradiction; cbn [init spec_pipe].
+  - destruct (Z.ltb_spec (Z.of_nat N) n); unfold yieldsP; cbn [fst snd].
+    + apply numbers_open. lia.
+    + apply numbers_closed. lia.
+  - destruct (Nat.ltb_spec N (length l)); unfold yieldsP; cbn [fst snd].
+    + apply list_open.
+    + apply list_closed.
+  - specialize (IH Hn N). destruct (spec_pipe N p) as [items st]. unfold yieldsP in IH. cbn [fst snd] in IH.
+    rewrite <- sfun_init. apply stage_yields. exact IH.
+  - destruct Hn as [H1 H2]. specialize (IH1 H1 N). specialize (IH2 H2 N).
+    destruct (spec_pipe N p1) as [i1 st1]. destruct (spec_pipe N p2) as [i2 st2].
+    unfold yieldsP in *. cbn [fst snd] in *.
+    pose proof (app_left p1 p2 (init p1) (init p2) i1 st1 IH1 i2 st2 (fun _ => IH2)) as R.
+    destruct st1; exact R.
+  - apply through_yields. apply IH. exact Hn.
+Qed.
+
+Lemma term_none_dec' : forall t, {t = TNone} + {t <> TNone}.
+Proof. destruct t; (left; reflexivity) || (right; discriminate). Qed.
+
+(* value agreement: whenever the eager specification decides the result on some prefix N of the
+   sources, the lazy machine returns exactly that result (given enough fuel) *)
+Lemma run_refines_spec_nocm : forall p t N o, no_cm p ->
+  spec_term t (spec_pipe N p) = Some o ->
+  exists F, forall fuel, (F <= fuel)%nat -> exists l n, run fuel t p = (l, o, n).
+Proof.
+  intros p t N o Hn Hs. destruct (term_none_dec' t) as [E|E].
+  - subst t. destruct (spec_pipe N p). cbn in Hs. inversion Hs; subst. exists O. intros fuel _.
+    eexists. eexists. reflexivity.
+  - pose proof (pipe_yields p Hn N) as Hy. destruct (spec_pipe N p) as [items st].
+    unfold yieldsP in Hy. cbn [fst snd] in Hy.
+    rewrite <- (tdec_spec t items st E) in Hs.
+    destruct (loop_decided p t (init p) items st Hy tst0 o Hs) as [F HF].
+    exists F. intros fuel Hf. destruct (HF fuel Hf) as [l [n El]]. exists l, n.
+    destruct t; try congruence; exact El.
+Qed.
+
+Lemma spec_need_from_sound : forall k N t p N' o,
+  spec_need_from k N t p = Some (N', o) -> spec_term t (spec_pipe N' p) = Some o.
+Proof.
+  induction k as [|k IH]; intros N t p N' o H; cbn [spec_need_from] in H;
+    destruct (spec_term t (spec_pipe N p)) as [o'|] eqn:E.
+  - inversion H; subst. exact E.
+  - discriminate.
+  - inversion H; subst. exact E.
+  - eapply IH. exact H.
+Qed.
+
+Lemma spec_need_sound : forall B t p N o, spec_need B t p = Some (N, o) -> spec_term t (spec_pipe N p) = Some o.
+Proof. intros B t p N o H. eapply spec_need_from_sound. exact H. Qed.
